@@ -67,6 +67,7 @@ struct Inner {
     state_hashes: Vec<u64>,
     per_thread_events: Vec<u64>,
     max_events: usize,
+    released: bool,
 }
 
 impl Inner {
@@ -80,6 +81,8 @@ pub struct Exec {
     inner: Mutex<Inner>,
     cvs: Vec<Condvar>,
     done: Condvar,
+    release_cv: Condvar,
+    native: usize,
     yield_sites: Vec<&'static str>,
     finish_sites: Vec<&'static str>,
     /// maps (site, a, b) to a logical thread id for code that runs on threads the harness did not create (tokio workers)
@@ -163,9 +166,6 @@ pub fn fail_now(f: Fail) -> ! {
             g.failure = Some(f);
         }
         g.abort = true;
-        for cv in &ex.cvs {
-            cv.notify_all();
-        }
         ex.done.notify_all();
         drop(g);
     }
@@ -231,6 +231,19 @@ impl Exec {
         true
     }
 
+    /// The running thread `tid` leaves the execution by unwinding.  Unwinding is serialized too: a native
+    /// thread passes the token on in `thread_finish` (called by its wrapper after the unwind); an external
+    /// logical thread (tokio task) has no wrapper, so it is marked finished here.
+    fn unwind_self(&self, g: std::sync::MutexGuard<'_, Inner>, tid: usize) -> ! {
+        self.done.notify_all();
+        drop(g);
+        if tid >= self.native {
+            self.thread_finish(tid);
+        }
+        IN_SCHED.with(|f| f.set(false));
+        std::panic::resume_unwind(Box::new(AbortExec));
+    }
+
     fn arrive(&self, tid: usize, site: &'static str, a: usize, b: usize) {
         IN_SCHED.with(|f| f.set(true));
         {
@@ -240,12 +253,11 @@ impl Exec {
                 g.status[tid] = Status::Parked;
                 self.done.notify_all();
                 g = self.wait_turn(g, tid);
-                let aborted = g.abort;
+                if g.abort {
+                    self.unwind_self(g, tid);
+                }
                 drop(g);
                 IN_SCHED.with(|f| f.set(false));
-                if aborted {
-                    std::panic::resume_unwind(Box::new(AbortExec));
-                }
                 return;
             }
         }
@@ -279,10 +291,7 @@ impl Exec {
             g.abort = true;
         }
         if g.abort {
-            self.wake_all(&mut g);
-            drop(g);
-            IN_SCHED.with(|f| f.set(false));
-            std::panic::resume_unwind(Box::new(AbortExec));
+            self.unwind_self(g, tid);
         }
         // this thread made a step: everybody else's yield block is lifted
         for t in 0..g.n {
@@ -303,11 +312,7 @@ impl Exec {
             if self.all_live_stuck(&g, fp) {
                 g.stuck = true;
                 g.abort = true;
-                self.wake_all(&mut g);
-                self.done.notify_all();
-                drop(g);
-                IN_SCHED.with(|f| f.set(false));
-                std::panic::resume_unwind(Box::new(AbortExec));
+                self.unwind_self(g, tid);
             }
         } else {
             g.at_yield[tid] = false;
@@ -317,11 +322,10 @@ impl Exec {
 
         let next = self.decide(&mut g, Some(tid));
         if g.abort {
-            self.wake_all(&mut g);
-            drop(g);
-            IN_SCHED.with(|f| f.set(false));
-            std::panic::resume_unwind(Box::new(AbortExec));
+            g.status[tid] = Status::Running;
+            self.unwind_self(g, tid);
         }
+        let mut switched = false;
         match next {
             Some(t) if t == tid => {
                 g.status[tid] = Status::Running;
@@ -331,6 +335,7 @@ impl Exec {
                 g.status[t] = Status::Running;
                 self.cvs[t].notify_all();
                 g = self.wait_turn(g, tid);
+                switched = true;
             }
             None => {
                 // only possible if this thread yield-blocked itself and nobody else can run:
@@ -340,29 +345,55 @@ impl Exec {
                 g.trace.push(Decision { enabled: vec![tid], chosen: 0, running_enabled: true });
             }
         }
-        let aborted = g.abort;
-        drop(g);
-        IN_SCHED.with(|f| f.set(false));
-        if aborted {
-            std::panic::resume_unwind(Box::new(AbortExec));
+        if g.abort {
+            self.unwind_self(g, tid);
         }
+        drop(g);
+        if switched {
+            // other threads ran in between: evaluate the oracle again right before this thread performs the
+            // access the point guards (a pointer that was live on arrival may have been freed meanwhile)
+            let r = {
+                let mut m = self.monitor.lock().unwrap_or_else(|e| e.into_inner());
+                match m.as_mut() {
+                    Some(f) => f(&Event { tid, site, a, b }),
+                    None => Ok(()),
+                }
+            };
+            if let Err(f) = r {
+                let mut g = self.inner.lock().unwrap_or_else(|e| e.into_inner());
+                if g.failure.is_none() {
+                    g.failure = Some(f);
+                }
+                g.abort = true;
+                self.unwind_self(g, tid);
+            }
+        }
+        IN_SCHED.with(|f| f.set(false));
     }
 
     fn wait_turn<'a>(&'a self, mut g: std::sync::MutexGuard<'a, Inner>, tid: usize) -> std::sync::MutexGuard<'a, Inner> {
-        while g.current != Some(tid) && !g.abort {
+        // also in abort mode a thread only proceeds (to unwind) when it is handed the token
+        while g.current != Some(tid) {
             g = self.cvs[tid].wait(g).unwrap_or_else(|e| e.into_inner());
         }
-        if !g.abort {
-            g.status[tid] = Status::Running;
-        }
+        g.status[tid] = Status::Running;
         g
     }
 
-    fn wake_all(&self, _g: &mut Inner) {
-        for cv in &self.cvs {
-            cv.notify_all();
+    /// Called by the main thread: abort the execution and start the serialized unwinding by handing the
+    /// token to the first parked thread (if the token is not currently held by a running thread).
+    fn kick_abort(&self, g: &mut Inner) {
+        g.abort = true;
+        let holder_alive = g.current.map(|c| g.status[c] == Status::Running).unwrap_or(false);
+        if !holder_alive {
+            match (0..g.n).find(|t| g.status[*t] == Status::Parked) {
+                Some(t) => {
+                    g.current = Some(t);
+                    self.cvs[t].notify_all();
+                }
+                None => g.current = None,
+            }
         }
-        self.done.notify_all();
     }
 
     /// First thing a harness thread does: park until scheduled.
@@ -408,14 +439,21 @@ impl Exec {
             }
         }
         if g.abort {
-            for cv in &self.cvs {
-                cv.notify_all();
+            // serialized unwinding: hand the token to the next parked thread, which will unwind in turn
+            match (0..g.n).find(|t| g.status[*t] == Status::Parked) {
+                Some(t) => {
+                    g.current = Some(t);
+                    self.cvs[t].notify_all();
+                }
+                None => g.current = None,
             }
         }
         self.done.notify_all();
         drop(g);
         IN_SCHED.with(|f| f.set(false));
-        TID.with(|t| t.set(None));
+        if tid < self.native {
+            TID.with(|t| t.set(None));
+        }
     }
 }
 
@@ -507,9 +545,12 @@ pub fn run_one<S: SchedSpec>(spec: &S, prefix: &[usize]) -> ExecResult {
             state_hashes: Vec::new(),
             per_thread_events: vec![0; n],
             max_events: spec.max_events(),
+            released: false,
         }),
         cvs: (0..n).map(|_| Condvar::new()).collect(),
         done: Condvar::new(),
+        release_cv: Condvar::new(),
+        native: sc.threads.len(),
         yield_sites: spec.yield_sites(),
         finish_sites: spec.finish_sites(),
         identify: sc.identify,
@@ -538,13 +579,16 @@ pub fn run_one<S: SchedSpec>(spec: &S, prefix: &[usize]) -> ExecResult {
                                     g.failure = Some(Fail { clause: "panic".into(), class: loc.clone(), detail: format!("thread {tid} panicked at {loc}: {msg}") });
                                 }
                                 g.abort = true;
-                                for cv in &ex2.cvs {
-                                    cv.notify_all();
-                                }
                             }
                         }
                     }
                     ex2.thread_finish(tid);
+                    // keep the OS thread (and its thread-local slots / recycled thread ids) alive until the whole
+                    // execution is over: thread exit timing must not be a source of nondeterminism
+                    let mut g = ex2.inner.lock().unwrap_or_else(|e| e.into_inner());
+                    while !g.released {
+                        g = ex2.release_cv.wait(g).unwrap_or_else(|e| e.into_inner());
+                    }
                 })
                 .expect("spawn"),
         );
@@ -570,16 +614,15 @@ pub fn run_one<S: SchedSpec>(spec: &S, prefix: &[usize]) -> ExecResult {
         }
         if (0..n).any(|t| g.status[t] == Status::NotStarted) {
             g.machinery = Some("an external logical thread never reached its first point".into());
-            g.abort = true;
-            for cv in &ex.cvs {
-                cv.notify_all();
-            }
+            ex.kick_abort(&mut g);
         }
     }
     // first decision
     {
         let mut g = ex.inner.lock().unwrap_or_else(|e| e.into_inner());
-        if let Some(t) = ex.decide(&mut g, None) {
+        if g.abort {
+            // nothing
+        } else if let Some(t) = ex.decide(&mut g, None) {
             g.current = Some(t);
             g.status[t] = Status::Running;
             ex.cvs[t].notify_all();
@@ -606,19 +649,13 @@ pub fn run_one<S: SchedSpec>(spec: &S, prefix: &[usize]) -> ExecResult {
                 if en.is_empty() {
                     let msg = format!("no enabled thread; status {:?}", g.status);
                     g.failure.get_or_insert(Fail::new("deadlock", msg));
-                    g.abort = true;
-                    for cv in &ex.cvs {
-                        cv.notify_all();
-                    }
+                    ex.kick_abort(&mut g);
                     continue;
                 }
             }
             if t0.elapsed() > Duration::from_secs(20) {
                 g.machinery = Some(format!("execution wedged for 20 s (a thread is blocked outside the scheduler); status {:?} current {:?}", g.status, g.current));
                 g.abort = true;
-                for cv in &ex.cvs {
-                    cv.notify_all();
-                }
                 break;
             }
             let (g2, _) = ex.done.wait_timeout(g, Duration::from_millis(200)).unwrap_or_else(|e| e.into_inner());
@@ -626,6 +663,11 @@ pub fn run_one<S: SchedSpec>(spec: &S, prefix: &[usize]) -> ExecResult {
         }
     }
     let wedged = ex.inner.lock().unwrap_or_else(|e| e.into_inner()).machinery.as_deref().map(|m| m.contains("wedged")).unwrap_or(false);
+    {
+        let mut g = ex.inner.lock().unwrap_or_else(|e| e.into_inner());
+        g.released = true;
+        ex.release_cv.notify_all();
+    }
     if !wedged {
         for h in handles {
             let _ = h.join();
@@ -766,6 +808,10 @@ impl<S: SchedSpec> Subject for Sched<S> {
             let a = run_one(&self.0, &p);
             let b = run_one(&self.0, &p);
             if a.machinery.is_none() && b.machinery.is_none() && trace_sig(&a) != trace_sig(&b) {
+                if std::env::var("ZV_DEBUG").is_ok() {
+                    eprintln!("A: {:?}\n   {:?}", a.events.iter().map(|e| (e.tid, e.site)).collect::<Vec<_>>(), a.trace.iter().map(|d| d.enabled.clone()).collect::<Vec<_>>());
+                    eprintln!("B: {:?}\n   {:?}", b.events.iter().map(|e| (e.tid, e.site)).collect::<Vec<_>>(), b.trace.iter().map(|d| d.enabled.clone()).collect::<Vec<_>>());
+                }
                 ctx.machinery_error(format!("{name}: schedule {:?} is not deterministic (two runs gave different event traces)", p));
             }
             *ctx.stats(&name).extra.entry("determinism_replays".into()).or_insert(0) += 2;
